@@ -139,6 +139,7 @@ def evaluate(ctx, docs, recs):
     edit_outcomes = {}
     classes = set()
     limit_viol = 0
+    empties = {}
     for r in recs:
         if r["kind"] == "doc":
             inc("doc_total")
@@ -146,10 +147,14 @@ def evaluate(ctx, docs, recs):
             if r["res"] == "ok":
                 inc("doc_ok")
                 continue
-            kind = "empty-collection " if not d["roundtrip"] else ""
-            inc("doc_bad_empty_collection" if not d["roundtrip"] else "doc_bad")
+            if not d["roundtrip"]:
+                # documents with an empty list/map somewhere: grouped by outcome (one finding per outcome class)
+                inc("doc_bad_empty_collection")
+                empties.setdefault(r["res"], []).append((d, r))
+                continue
+            inc("doc_bad")
             violations.append(Violation(
-                key="%sdocument %s: %s" % (kind, doc_show(d), r["res"]),
+                key="document %s: %s" % (doc_show(d), r["res"]),
                 desc="signed document %s: %s (%s)" % (doc_show(d), r["res"], (r.get("msg") or "")[:300]),
                 replay={"document": d, "result": r}))
         elif r["kind"] == "stream":
@@ -195,6 +200,17 @@ def evaluate(ctx, docs, recs):
                 inc("limit_accepted")
             else:
                 inc("limit_rejected_below_limit")
+    for res, hits in sorted(empties.items()):
+        hits.sort(key=lambda h: len(doc_key(h[0])))
+        d, r = hits[0]
+        violations.append(Violation(
+            key="empty-collection/%s" % res,
+            desc="a header value containing an empty list/map is accepted by the signer but %s (%d generated documents, smallest: %s; %s)"
+                 % ({"decode-error": "its encoding is rejected by Decode",
+                     "decode-differs": "decodes back to different headers (the empty member is dropped)",
+                     "text-differs": "is encoded differently from the reference grammar"}.get(res, res),
+                    len(hits), doc_show(d), (r.get("msg") or "")[:240]),
+            replay={"document": d, "result": r, "all_documents": [doc_show(h[0]) for h in hits][:200]}))
     st["edit_classes_exercised"] = len(classes)
     return {"violations": violations, "stats": st, "edit_outcomes": edit_outcomes, "limit_violations": limit_viol}
 
